@@ -59,7 +59,7 @@ SimSizes   == {0, 1, 2, 3, 5}
 MCRDelims  == {<<10>>, DASH2, CRLF}
 QSizes     == {1, 2}
 QRDelims   == {<<10>>, DASH2}
-FewPos     == {1, 3, 20}
+FewPos     == {1, 3, 20, 62}
 ExpSizes   == {1}
 ExpRDelims == {DASH2}
 NoSizes    == {}
@@ -89,10 +89,11 @@ XReadAll   == ReadAll /\ Keep
 XExhaust   == Exhaust /\ Keep
 XGetData   == GetData /\ Keep
 XGetText   == GetText /\ Keep
+XGetTextOpen == GetTextOpen /\ Keep
 XGetMedia  == GetMedia /\ Keep
 XReadUntil == (\E d \in RDelims, n \in Sizes \cup {-1}, c \in BOOLEAN : ReadUntil(d, n, c)) /\ Keep
 XNext == XAddPart \/ XSeal \/ XCorrupt \/ XServe \/ XFirst \/ XSkip \/ XNextAfterPartial \/ XNextAfterFull
-         \/ XReadSome \/ XReadAll \/ XExhaust \/ XGetData \/ XGetText \/ XGetMedia \/ XReadUntil
+         \/ XReadSome \/ XReadAll \/ XExhaust \/ XGetData \/ XGetText \/ XGetTextOpen \/ XGetMedia \/ XReadUntil
 
 AAddPart   == (\E p \in PartPool : AddPart(p)) /\ Keep
 ASeal      == (IF esel = NoEnv THEN \E e \in EnvPool : Seal(e) ELSE Seal(esel)) /\ Keep
@@ -104,10 +105,11 @@ AReadAll   == Bound /\ ReadAll /\ Log
 AExhaust   == Bound /\ Exhaust /\ Log
 AGetData   == Bound /\ GetData /\ Log
 AGetText   == Bound /\ GetText /\ Log
+AGetTextOpen == Bound /\ GetTextOpen /\ Log
 AGetMedia  == Bound /\ GetMedia /\ Log
 AReadUntil == Bound /\ (\E d \in RDelims, n \in Sizes \cup {-1}, c \in BOOLEAN : ReadUntil(d, n, c)) /\ Log
 MCNext == AAddPart \/ ASeal \/ ACorrupt \/ AServe \/ ANextPart \/ AReadSome \/ AReadAll \/ AExhaust
-          \/ AGetData \/ AGetText \/ AGetMedia \/ AReadUntil
+          \/ AGetData \/ AGetText \/ AGetTextOpen \/ AGetMedia \/ AReadUntil
 
 MCInit  == Init /\ h = <<>> /\ esel = NoEnv
 SimInit == Init /\ h = <<>> /\ esel \in EnvPool
@@ -117,9 +119,10 @@ MCvars == <<vars, h, esel>>
    actions on every transition: a step from st = "part" whose last'.op is get_data / get_text is a
    GetData / GetText step, a step from "iter"/"part" to "part" whose last'.op is "next" is a NextPart step *)
 MCBufferLimitExact ==
-    [][(st = "part" /\ last'.op \in {"get_data", "get_text"} /\ cache = NONE /\ last'.out # "none") =>
-          /\ (last'.why = "size") = (pend - pos > lim.buf)
+    [][(st = "part" /\ last'.op \in {"get_data", "get_text"} /\ cache = NONE /\ last'.out \notin {"none", "open"}) =>
+          /\ ~toolarge => (last'.why = "size") = (pend - pos > lim.buf)
           /\ (Sent /\ pos = pstart) => ((last'.why = "size") = (Len(form[yielded].content) > lim.buf))
+          /\ toolarge => (last'.out = "error" /\ last'.why = "size" /\ toolarge')
           /\ last'.out = "ok" => (pos' = pend /\ last'.res = Slice(body, pos, pend))]_MCvars
 MCProgress == [][(st \in {"iter", "part"} /\ last'.op = "next" /\ st' = "part") => pos' > pos]_MCvars
 
